@@ -558,5 +558,31 @@ def replay_C15(w, clause):
     return {"reproduced": False, "detail": "__eq__ agrees with field-wise equality"}
 
 
+def replay_C17(w, clause):
+    import kio.records.writers as W
+
+    from .props import reclib
+
+    nb = reclib.batch_from_json(w["batch"])
+    buf = io.BytesIO()
+    try:
+        getattr(W, w.get("entry", "write_new_batch"))(buf, nb)
+    except Exception as e:
+        return {"reproduced": True, "sig": {"kind": "writer_raises", **_exc_sig(e)}, "detail": f"{type(e).__name__}: {e}"}
+    data = buf.getvalue()
+    import crc32c
+
+    from . import kref
+
+    ref = bytes(kref.batch_items(nb, lambda items: crc32c.crc32c(bytes(items))))
+    if data != ref:
+        k = next((i for i in range(min(len(data), len(ref))) if data[i] != ref[i]), min(len(data), len(ref)))
+        field = ("base_offset" if k < 8 else "batch_length" if k < 12 else "partition_leader_epoch" if k < 16 else "magic" if k < 17 else "crc" if k < 21 else
+                 "attributes" if k < 23 else "last_offset_delta" if k < 27 else "base_timestamp" if k < 35 else "max_timestamp" if k < 43 else "after_max_timestamp")
+        return {"reproduced": True, "sig": {"kind": "bytes_differ_from_reference", "first_field": field},
+                "detail": f"first difference at byte {k} ({field}): kio {data[max(0,k-4):k+8].hex()} reference {ref[max(0,k-4):k+8].hex()}"}
+    return {"reproduced": False, "detail": "bytes equal the reference batch"}
+
+
 if __name__ == "__main__":
     sys.exit(main(sys.argv[1:]))
